@@ -255,6 +255,148 @@ example : ReachInv (nextReader (witCut 21 true)).2 := reach_inv_nextReader _ wit
 example : ReachInv (mrRead (nextReader (witCut 21 true)).2 0 2).2 :=
   reach_inv_read _ 0 2 (by decide) (reach_inv_nextReader _ witCut_reachInv)
 
+/-! #### compressed messages (`compressed_cut_never_complete`, `compressed_whole_complete`,
+    `complete_reads_to_end_or_latched`) -/
+open WS.ReaderZ WS.ZCut
+
+/-- first frame of a compressed text message: RSV1 (set by `encZ`), non-final, payload 02 00 — an
+    empty *final* stored deflate block, i.e. the deflate stream ends inside the first frame (F10) -/
+def witZF : PFrame := { op := 1, fin := false, key := ⟨0x37, 0xfa, 0x21, 0x3d⟩, payload := [0x02, 0x00] }
+
+/-- … and the final continuation frame with payload 00 -/
+def witZMore : List PFrame := [{ op := 0, fin := true, key := ⟨0xa0, 0xb0, 0xc0, 0xd0⟩, payload := [0x00] }]
+
+def witZ_shape : ZShape 1 witZF witZMore :=
+  ⟨rfl, by decide, Or.inr ⟨rfl, Tail.last _ rfl rfl (by decide)⟩⟩
+
+/-- the wire bytes towards a client (unmasked: 41 02 02 00 | 80 01 00) and towards a server -/
+example : encZ false witZF ++ encAll false witZMore = [0x41, 0x02, 0x02, 0x00, 0x80, 0x01, 0x00] := by decide
+example : (encZ true witZF).length = 8 ∧ (encZ true witZF ++ encAll true witZMore).length = 15 := by decide
+
+/-- the decompressor of finding F10: asks once for 4096 raw bytes, then reports the end of the
+    deflate stream; the drain that follows asks for 8192 bytes at a time -/
+def witZEnv : ZEnv := ⟨[4096], true, 8192⟩
+
+/-- a connection with compression negotiated, reader idle (a pong was handled before), buffer size
+    4096; of the wire bytes of `witZF`, `witZMore` followed by `rest` only the first `cut` arrive
+    (4 already buffered, the others in one chunk), then the transport ends with `term` -/
+def witZConn (isServer : Bool) (rest : Bytes) (cut : Nat) (term : RErr) (together : Bool) : Conn :=
+  { w := newW isServer 4096 false true,
+    r := { isServer := isServer, nego := true, hlog := [.pong []],
+           buf := { size := 4096, buf := ((encZ isServer witZF ++ encAll isServer witZMore ++ rest).take cut).take 4,
+                    t := { chunks := [((encZ isServer witZF ++ encAll isServer witZMore ++ rest).take cut).drop 4],
+                           term := term, together := together },
+                    total := 16 } } }
+
+/-- client reader: the first frame (4 bytes) and the first header byte of the second arrived, then EOF -/
+def witZCut : Conn := witZConn false [] 5 .eof false
+
+def witZCut_idle : ReaderIdle witZCut :=
+  ⟨rfl, rfl, rfl, ⟨by decide, by decide, by decide, (by intro e h; cases h)⟩, by decide, by decide,
+    (by intro id h; cases h), (by intro id h; cases h)⟩
+
+example : witZCut.r.buf.pending = [0x41, 0x02, 0x02, 0x00, 0x80] := by decide
+
+/-- non-vacuity of `compressed_cut_never_complete`: all hypotheses hold for `witZCut`, cut = 5 of 7 -/
+example : (∃ e c1, nextReader witZCut = (.err e, c1)) ∨
+    (∃ c1 rid, nextReader witZCut = (.msg 1 rid true, c1) ∧
+      ∃ raw e c2, zReadToEnd c1 rid witZEnv = ((raw, .failed e), c2)) :=
+  compressed_cut_never_complete witZCut witZCut_idle (fun _ => rfl) rfl 1 (Or.inl rfl) witZF witZMore witZ_shape 5
+    (by decide) (by decide) (by decide) (by decide) witZEnv (by decide) (by decide)
+
+/-- what actually happens there: NextReader announces the compressed text message; the decompressor
+    is handed the two payload bytes and reports the end of the deflate stream; the drain then hits the
+    cut header of the second frame: the 1006 unexpected-EOF close error, not completion -/
+example : (nextReader witZCut).1 = .msg 1 0 true := by rfl
+example : (zReadToEnd (nextReader witZCut).2 0 witZEnv).1 = ([0x02, 0x00], .failed .unexpectedEOF) := by
+  decide +kernel
+
+/-- server reader (masked frames, 8 + 7 bytes): the first frame and the first header byte of the
+    second arrived, then the transport fails with an error of its own, reported together with the
+    last bytes -/
+def witZCutS : Conn := witZConn true [] 9 (.transport 7) true
+
+def witZCutS_idle : ReaderIdle witZCutS :=
+  ⟨rfl, rfl, rfl, ⟨by decide, by decide, by decide, (by intro e h; cases h)⟩, by decide, by decide,
+    (by intro id h; cases h), (by intro id h; cases h)⟩
+
+/-- non-vacuity of `compressed_cut_never_complete`, second instance (server side, transport error,
+    decompressor asking for 1 byte and then 4096 bytes, drain of 512) -/
+example : (∃ e c1, nextReader witZCutS = (.err e, c1)) ∨
+    (∃ c1 rid, nextReader witZCutS = (.msg 1 rid true, c1) ∧
+      ∃ raw e c2, zReadToEnd c1 rid ⟨[1, 4096], true, 512⟩ = ((raw, .failed e), c2)) :=
+  compressed_cut_never_complete witZCutS witZCutS_idle (fun _ => rfl) rfl 1 (Or.inl rfl) witZF witZMore witZ_shape 9
+    (by decide) (by decide) (by decide) (by decide) ⟨[1, 4096], true, 512⟩ (by decide) (by decide)
+
+example : (nextReader witZCutS).1 = .msg 1 0 true := by rfl
+example : (zReadToEnd (nextReader witZCutS).2 0 ⟨[1, 4096], true, 512⟩).1 = ([0x02, 0x00], .failed (.transport 7)) := by
+  decide +kernel
+
+/-- client reader: the same message arrived whole, followed by one stray byte (the first header byte
+    of the next frame), then EOF -/
+def witZWhole : Conn := witZConn false [0x81] 8 .eof true
+
+def witZWhole_idle : ReaderIdle witZWhole :=
+  ⟨rfl, rfl, rfl, ⟨by decide, by decide, by decide, (by intro e h; cases h)⟩, by decide, by decide,
+    (by intro id h; cases h), (by intro id h; cases h)⟩
+
+example : witZWhole.r.buf.pending = [0x41, 0x02, 0x02, 0x00, 0x80, 0x01, 0x00, 0x81] := by decide
+
+/-- non-vacuity of `compressed_whole_complete`, `reqs = [4096]` (the decompressor of F10) -/
+example : ∃ c1 rid, nextReader witZWhole = (.msg 1 rid true, c1) ∧
+    ∃ raw c2, zReadToEnd c1 rid ⟨[4096], true, 8192⟩ = ((raw, .complete), c2) ∧
+      raw <+: witZF.payload ++ dataPayload witZMore ∧ ReaderIdle c2 ∧ c2.r.buf.pending = [0x81] :=
+  compressed_whole_complete witZWhole witZWhole_idle rfl 1 (Or.inl rfl) witZF witZMore witZ_shape [0x81]
+    (by decide) (Or.inr (by decide)) (by decide) (by decide) [4096] 8192 (by decide) (by decide)
+
+/-- … and `reqs = []`: the decompressor reports the end at once, the whole message is drained -/
+example : ∃ c1 rid, nextReader witZWhole = (.msg 1 rid true, c1) ∧
+    ∃ raw c2, zReadToEnd c1 rid ⟨[], true, 8192⟩ = ((raw, .complete), c2) ∧
+      raw <+: witZF.payload ++ dataPayload witZMore ∧ ReaderIdle c2 ∧ c2.r.buf.pending = [0x81] :=
+  compressed_whole_complete witZWhole witZWhole_idle rfl 1 (Or.inl rfl) witZF witZMore witZ_shape [0x81]
+    (by decide) (Or.inr (by decide)) (by decide) (by decide) [] 8192 (by simp) (by decide)
+
+/-- what actually happens there -/
+example : (nextReader witZWhole).1 = .msg 1 0 true := by rfl
+example : (zReadToEnd (nextReader witZWhole).2 0 ⟨[4096], true, 8192⟩).1 = ([0x02, 0x00], .complete) ∧
+    (zReadToEnd (nextReader witZWhole).2 0 ⟨[4096], true, 8192⟩).2.r.buf.pending = [0x81] := by
+  decide +kernel
+example : (zReadToEnd (nextReader witZWhole).2 0 ⟨[], true, 8192⟩).1 = ([], .complete) ∧
+    (zReadToEnd (nextReader witZWhole).2 0 ⟨[], true, 8192⟩).2.r.buf.pending = [0x81] := by
+  decide +kernel
+
+/-- non-vacuity of `complete_reads_to_end_or_latched`: the state after NextReader on `witZWhole`
+    (a message reader is attached), the decompressor of F10; the decompressing reader reports the
+    message complete … -/
+example : (zReadToEnd (nextReader witZWhole).2 0 witZEnv).2.r.msgReader = none ∨
+    ((nextReader witZWhole).2.r.buf.t.together = true ∧
+      (zReadToEnd (nextReader witZWhole).2 0 witZEnv).2.r.readErr = some .eof ∧
+      (zReadToEnd (nextReader witZWhole).2 0 witZEnv).2.r.remaining ≤ 0 ∧
+      (zReadToEnd (nextReader witZWhole).2 0 witZEnv).2.r.final = true) :=
+  complete_reads_to_end_or_latched (nextReader witZWhole).2 0 (by rfl) witZEnv [0x02, 0x00]
+    (zReadToEnd (nextReader witZWhole).2 0 witZEnv).2 (Prod.ext (by decide +kernel) rfl)
+
+/-- … and it is the first alternative that holds: the message reader is detached -/
+example : (zReadToEnd (nextReader witZWhole).2 0 witZEnv).2.r.msgReader = none := by decide +kernel
+
+/-- the second alternative is not redundant: `WS.ZCut.complete_reads_to_end_counterexample`
+    (`cxC`: client reader one payload byte before the end of the final frame of a compressed message,
+    buffer size 1, the byte arrives together with io.EOF; `cxE` = ⟨[4096], true, 32768⟩) satisfies the
+    hypotheses, the message reader stays attached … -/
+example : ZCut.cxC.r.msgReader = some 0 ∧ (zReadToEnd ZCut.cxC 0 cxE).1 = ([7], .complete) ∧
+    (zReadToEnd ZCut.cxC 0 cxE).2.r.msgReader = some 0 :=
+  ⟨complete_reads_to_end_counterexample.1, complete_reads_to_end_counterexample.2.2.2.1,
+    complete_reads_to_end_counterexample.2.2.2.2⟩
+
+/-- … so the theorem, instantiated on it, yields the second alternative: io.EOF latched after the last
+    byte of the final frame on a `together` transport -/
+example : ZCut.cxC.r.buf.t.together = true ∧ (zReadToEnd ZCut.cxC 0 cxE).2.r.readErr = some .eof ∧
+    (zReadToEnd ZCut.cxC 0 cxE).2.r.remaining ≤ 0 ∧ (zReadToEnd ZCut.cxC 0 cxE).2.r.final = true := by
+  rcases complete_reads_to_end_or_latched ZCut.cxC 0 complete_reads_to_end_counterexample.1 cxE [7]
+    (zReadToEnd ZCut.cxC 0 cxE).2 (Prod.ext complete_reads_to_end_counterexample.2.2.2.1 rfl) with h | h
+  · rw [complete_reads_to_end_counterexample.2.2.2.2] at h; cases h
+  · exact h
+
 end NonVacuity
 
 end WS.Props.C05
